@@ -182,6 +182,16 @@ pub fn cases(tier: Tier) -> Vec<Case> {
                 }
             }
         }
+        if n == 8 && tier == Tier::Thorough {
+            // every zero pattern of a and of b (dense elsewhere), unit factors and the R1CS pattern
+            for za in 0u32..256 {
+                for zb in (0u32..256).step_by(5) {
+                    let a: Vec<usize> = (0..8).map(|i| if za & (1 << i) != 0 { 0 } else { 3 }).collect();
+                    let b: Vec<usize> = (0..8).map(|i| if zb & (1 << i) != 0 { 0 } else { 4 }).collect();
+                    out.push(Case { k, a_desc: "zero patterns (n=8)".into(), a, b, pattern: ((za + zb) % 3) as usize });
+                }
+            }
+        }
         if n >= 4 {
             for p in &pats {
                 let dense_a = vec![3; n];
